@@ -45,7 +45,7 @@ pub fn run_check(context: &CheckContext) -> CheckOutcome {
     if !outcome.violations.is_empty() { return outcome; }
     if context.property == "C14" { return run_c14(context, outcome); }
     if context.property == "C12" { return run_c12(context, outcome); }
-    if matches!(context.property.as_str(), "C02" | "C11" | "C13" | "C15" | "C18") { return run_conc_check(context, outcome); }
+    if matches!(context.property.as_str(), "C02" | "C13" | "C15" | "C18") { return run_conc_check(context, outcome); }
     let campaigns = seq_campaigns(&context.property);
     if !campaigns.is_empty() { outcome.assumptions.extend(seq_assumptions()); }
     for campaign in campaigns {
@@ -56,7 +56,7 @@ pub fn run_check(context: &CheckContext) -> CheckOutcome {
             break;
         }
     }
-    if outcome.violations.is_empty() && matches!(context.property.as_str(), "C01" | "C04" | "C05") { return run_conc_check(context, outcome); }
+    if outcome.violations.is_empty() && matches!(context.property.as_str(), "C01" | "C04" | "C05" | "C07" | "C11") { return run_conc_check(context, outcome); }
     outcome
 }
 
@@ -85,6 +85,8 @@ pub fn conc_campaigns(property: &str) -> Vec<ConcCampaign> {
         "C04" => vec![ConcCampaign { name: "conc-delete-window", profile: DeleteWindow, cases_quick: 500, cases_thorough: 6000, nt: |s| s.read_between_delete_and_ack && s.guard_held_during_delete,
             rule: "one deleter cycling awaited put / unawaited delete / immediate reads / await on 3 keys of one store shard region, 1-5 threads reading and holding get_ref guards on the same keys, command worker delayed 30-500 us per command so the window between delete() returning and its acknowledgement is wide; history checker: no read that starts after delete() returned may return the deleted value; non-trivial = a read of the key fell between delete() returning and its acknowledgement AND a get_ref guard was held when delete() was called" }],
         "C02x" => vec![],
+        "C07" => vec![ConcCampaign { name: "conc-put-contention", profile: PutContention, cases_quick: 600, cases_thorough: 8000, nt: |s| s.puts_on_settled_keys >= 3 && s.threads >= 3,
+            rule: "keys are never deleted, never given a TTL and the cache is far from full, so once a key's first write is acknowledged it stays readable; 3-8 threads then race puts (all four variants), in-place upserts, reads and held get_ref guards on those keys with 2 store shards; every such put must be refused with KeyAlreadyExists and no read may ever return its value; non-trivial = >= 3 puts hit an already settled key from >= 3 threads" }],
         "C11" => vec![ConcCampaign { name: "conc-bursts", profile: Bursts, cases_quick: 800, cases_thorough: 8000, nt: |s| s.queue_full_sends && s.concurrent_in_flight,
             rule: "generated bursts of unawaited writes from 1-8 threads, queue size 1/2/3/8, worker and senders delayed by injection; trace checker: every queued command executed exactly once, executions never overlap, per-thread and real-time cross-thread order preserved, statuses match; when the last acknowledgement of a thread completes all earlier ones are complete; non-trivial = a send waited on a full queue AND two threads had commands in flight at once" }],
         "C13" => vec![ConcCampaign { name: "conc-shutdown", profile: Shutdown, cases_quick: 1000, cases_thorough: 10_000, nt: |s| s.shutting_down_acks >= 1 && s.real_acks >= 1,
